@@ -2,7 +2,7 @@
 CONSTANTS
   MaxStarts = 3
   MaxDrops = 2
-  MaxDups = 0
+  MaxDups = 2
   TieBreak = FALSE
   RoleByAddress = FALSE
 INIT Init
